@@ -91,6 +91,40 @@ func c08Msg(r *fw.R, m *wire.Msg, tag string) {
 	}
 }
 
+// c08PackBufferGrid: PackBuffer with caller buffers around the true and the predicted uncompressed length never
+// fails for lack of room (too small a buffer is replaced, one that is large enough is used), for a message built
+// from Go structs.
+func c08PackBufferGrid(r *fw.R, m *dns.Msg, tag, desc string) {
+	keep := m.Compress
+	defer func() { m.Compress = keep }()
+	m.Compress = false
+	lu := m.Len()
+	b, err := m.Pack()
+	if err != nil {
+		return
+	}
+	ulen := len(b)
+	for _, comp := range []bool{false, true} {
+		m.Compress = comp
+		for _, n := range []int{0, ulen - 1, ulen, ulen + 1, lu - 1, lu, lu + 1, lu + 2} {
+			if n < 0 {
+				continue
+			}
+			buf := make([]byte, n)
+			out, err := m.PackBuffer(buf)
+			if err != nil {
+				if isBufErr(err) {
+					r.Fail("packbuffer-no-room/"+tag, "PackBuffer(buf of %d, true uncompressed length %d, predicted %d, Compress=%v): %v — %s", n, ulen, lu, comp, err, desc)
+				}
+				continue
+			}
+			if n > lu && len(out) > 0 && &out[0] != &buf[0] {
+				r.Fail("packbuffer-not-in-place/"+tag, "PackBuffer(buf of %d > uncompressed Len() %d, Compress=%v) did not write into the caller's buffer — %s", n, lu, comp, desc)
+			}
+		}
+	}
+}
+
 func c08Spaces(c *fw.Ctx) {
 	nU, dev := 6, 2
 	k, fullLimit := 2, 3000
@@ -183,7 +217,7 @@ func c08Spaces(c *fw.Ctx) {
 				emit(func(r *fw.R) { c08Msg(r, m, "root") })
 			})
 		})
-	c.Space("zero-values", "every registered type as the Go zero value with only its header set (nil slices, empty strings: what a caller builds by hand and what Unpack returns for RDLENGTH 0), alone, twice and three times in a message, under both Compress settings: where Pack succeeds Len ≥ Pack, Len(rr) ≥ PackRR, and Pack does not fail for lack of room; non-trivial: PackRR succeeds", true,
+	c.Space("zero-values", "every registered type as the Go zero value with only its header set (nil slices, empty strings: what a caller builds by hand and what Unpack returns for RDLENGTH 0), alone, twice and three times in a message, under both Compress settings: where Pack succeeds Len ≥ Pack, Len(rr) ≥ PackRR, and neither Pack nor PackBuffer (caller buffers of 0 and of the true / predicted uncompressed length −1…+2) fails for lack of room; non-trivial: PackRR succeeds", true,
 		func(emit func(func(*fw.R))) {
 			for _, t := range regTypes() {
 				t := t
@@ -224,6 +258,9 @@ func c08Spaces(c *fw.Ctx) {
 								r.Fail("pack-no-room/zero-value", "%d zero-value records of type %d, Compress=%v: Pack fails for lack of room: %v (Len=%d)", k, t, comp, err, l)
 							case err == nil && l < len(b):
 								r.Fail("len-underestimates/zero-value", "%d zero-value records of type %d, Compress=%v: Len() = %d < len(Pack()) = %d", k, t, comp, l, len(b))
+							}
+							if comp {
+								c08PackBufferGrid(r, m, "zero-value", fmt.Sprintf("%d zero-value records of type %d", k, t))
 							}
 						}
 					}
@@ -270,6 +307,9 @@ func c08Spaces(c *fw.Ctx) {
 								r.Count("Pack refuses the form", 1)
 							case l < len(b):
 								r.Fail("len-underestimates/"+tn+"/go-forms", "Len()=%d < len(Pack())=%d with Compress=%v for %d × {%s}", l, len(b), comp, n, nc.what)
+							}
+							if comp && err == nil {
+								c08PackBufferGrid(r, m, tn+"/go-forms", fmt.Sprintf("%d × {%s}", n, nc.what))
 							}
 						}
 					}
